@@ -31,6 +31,7 @@ def main():
     pid, patch, demo = sys.argv[1], os.path.abspath(sys.argv[2]), os.path.abspath(sys.argv[3])
     keep = sys.argv[sys.argv.index("--keep") + 1] if "--keep" in sys.argv else None
     needs = sys.argv[sys.argv.index("--needs") + 1] if "--needs" in sys.argv else ""
+    benign = "--benign" in sys.argv
     wt = tempfile.mkdtemp(prefix="cinco-evalwt-")
     os.rmdir(wt)
     home = tempfile.mkdtemp(prefix="cinco-home-")
@@ -57,7 +58,11 @@ def main():
         fired = [l for l in outc.splitlines() if " VIOLATION " in l or "ANALYSIS-ERROR" in l or "CRASH" in l]
         res["checks_fired"] = fired
         res["fired_properties"] = sorted({l.split()[0] for l in fired})
-        res["confirmed"] = (rc0 == 0 and rca == 0 and rc1 != 0 and res["tests"] == "1 failed, 477 passed")
+        if benign:
+            res["confirmed"] = (rc0 == 0 and rca == 0 and rc1 == 0 and res["tests"] == "1 failed, 477 passed")
+        else:
+            res["confirmed"] = (rc0 == 0 and rca == 0 and rc1 != 0 and res["tests"] == "1 failed, 477 passed")
+        res["kind"] = "benign" if benign else "breaking"
         res["detected_by_own_property"] = pid in res["fired_properties"]
         print(json.dumps(res, indent=1))
         if keep and res["confirmed"]:
@@ -69,7 +74,8 @@ def main():
             if os.path.exists(md):
                 shutil.copy(md, os.path.join(d, "notes.md"))
             meta = {
-                "id": keep, "breaks_property": pid, "needs_to_manifest": needs,
+                "id": keep, "kind": "benign" if benign else "breaking",
+                ("exercises_property" if benign else "breaks_property"): pid, "needs_to_manifest": needs,
                 "source": "independent sub-agent given only the property text and a scratch worktree",
                 "base_commit": res["base_commit"],
                 "what_was_run": {
@@ -79,6 +85,7 @@ def main():
                     "checks against the patched tree (tools/try_seed.py)": res["fired_properties"] or "none fired",
                 },
                 "detected": bool(res["fired_properties"]),
+                "expected": "silent (behaviour-preserving refactor)" if benign else "reported",
                 "detected_by": fired,
             }
             json.dump(meta, open(os.path.join(d, "meta.json"), "w"), indent=1)
